@@ -50,7 +50,7 @@ type expTok struct {
 
 var c11Idents = []string{"a", "x1", "_", "_1", "a1_b", "trueish", "falsey", "nilx", "format", "iffy", "lenx", "intx", "printer", "forx", "returns", "elsewhere", "Break", "TRUE", "False", "truefalse", "istrue", "t", "f", "importx", "caseX", "stringer", "boolean", "errorx", "in", "go", "Zz9", "veryLongIdentifierName_with_123"}
 var c11Numbers = []string{"0", "7", "42", "1234567890", "007", "9223372036854775807"}
-var c11StrContents = []string{"", "a", "hello world", "tab\there", "nl\nhere", "quote\"in", "back\\slash", "bell\a\b\f\r\v", "// not a comment", "/* neither */", "sp  aces ", "$x `y` 'z'", "é", "日本語", "😀 smile", "mixed é 日 ok", "\x01\x7f", "%d 100%", "a;b|c&d", "{}[]()", "-5", "true", "tick`tick"}
+var c11StrContents = []string{"", "a", "hello world", "tab\there", "nl\nhere", "quote\"in", "back\\slash", "bell\a\b\f\r\v", "// not a comment", "/* neither */", "sp  aces ", "$x `y` 'z'", "é", "日本語", "😀 smile", "mixed é 日 ok", "\x01\x7f", "%d 100%", "a;b|c&d", "{}[]()", "-5", "true", "tick`tick", "trail\\", "\\", "\\\\", "C:\\tmp\\", "a\\n", "mid\\dle", "\\\"", "ends with quote\""}
 
 func mkIdent(s string) gtok  { return gtok{"ident", s, s, lexer.IDENTIFIER} }
 func mkKw(s string) gtok     { return gtok{"keyword", s, s, kwType[s]} }
@@ -311,6 +311,12 @@ func c11Vocabulary() []gtok {
 	v := []gtok{}
 	for _, s := range c11Idents {
 		v = append(v, mkIdent(s))
+	}
+	// identifiers that begin or end with a keyword / literal word, continued by a digit or an underscore
+	for _, w := range []string{"true", "false", "nil", "if", "for", "func", "var", "int", "string", "bool", "len", "print", "return", "import", "range", "case", "else", "break", "copy", "read", "itoa"} {
+		for _, id := range []string{w + "1", w + "0", w + "_", "_" + w, w + "9z", w + w} {
+			v = append(v, mkIdent(id))
+		}
 	}
 	for k := range kwType {
 		v = append(v, mkKw(k))
